@@ -1,7 +1,7 @@
 (** C06 — property theorems only: statement, [exact] of a lemma proved in Proofs/C06_Opt.v, [Print Assumptions].
     Model: Model/C06_Opt.v.  [ev] is the problem's evaluation function (obj, ineqcv, eqcv) and is universally
     quantified everywhere; [cand] is the candidate set (decn_space), [k] the subset size (ndecn). *)
-From PV Require Import Lib.Common Model.C06_Opt Proofs.C06_Opt Gen.C06_Kernel Model.C06_Machine Proofs.C06_Kernel Proofs.C06_Scale.
+From PV Require Import Lib.Common Model.C06_Opt Proofs.C06_Opt Gen.C06_Kernel Model.C06_Machine Proofs.C06_Kernel Proofs.C06_Scale Proofs.C06_Pos.
 Local Open Scope Z_scope.
 
 (** *** SortingSubsetOptimizationAlgorithm *)
@@ -345,6 +345,43 @@ Theorem C06_sorting_scale_covariant : forall (ev ev' : list Z -> evalT) (b : Z) 
   0 < b -> (forall e, single_key ev' e = b * single_key ev e) -> sort_select ev' cand k = sort_select ev cand k.
 Proof. intros ev ev' b cand k Hb Hk. exact (sort_select_scale ev ev' b Hb Hk cand k). Qed.
 Print Assumptions C06_sorting_scale_covariant.
+
+(** *** position-dependent problems (slot weights such as 2,1,2,1; weights that differ per variable).  The truthfulness clause of the
+    result monitor, as evaluated in the correspondence shards on every returned row of every optimiser class, accepts exactly the
+    reports that are the evaluation of the reported decision (same ordering), row by row ... *)
+Theorem C06_monitor_truthful_sound : forall (ev : list Z -> evalT) (X : list (list Z)) (R : list evalT),
+  truthful_b ev X R = true <-> R = map ev X.
+Proof. intros. split; [apply truthful_b_sound | intros ->; apply truthful_b_complete]. Qed.
+Print Assumptions C06_monitor_truthful_sound.
+
+(** ... and on a slot-weighted problem it REJECTS a decision reported with two neighbouring members exchanged (e.g. sorted) together
+    with the values of the original ordering, whenever the two slots weigh differently and the two members have different table
+    values — which a position-independent problem can never show *)
+Theorem C06_monitor_rejects_reordered_decision :
+  forall (t : list Z) (w : Z) (clip : bool) (sp : list Z) (s1 s2 : Z) (ss xp : list Z) (a b : Z) (r : list Z),
+  length sp = length xp -> s1 <> s2 -> look t a <> look t b -> w <> 0 ->
+  let ev := tps_eval (mkTP [t] [] [w] [] [] clip [] [] [] []) [sp ++ s1 :: s2 :: ss] [] [] in
+  truthful_b ev [xp ++ b :: a :: r] [ev (xp ++ a :: b :: r)] = false.
+Proof. exact truthful_b_rejects_reordered. Qed.
+Print Assumptions C06_monitor_rejects_reordered_decision.
+
+(** the quantisation used to make real-coded problems exact is the identity on integer / binary decisions and moves a real
+    variable down by less than one grid step *)
+Theorem C06_quantisation : forall (qn : Z) (v : Q) (z : Z), 0 < qn ->
+  (quantQ qn (inject_Z z) == inject_Z z)%Q /\ (quantQ qn v <= v)%Q /\ (v < quantQ qn v + 1 / inject_Z qn)%Q.
+Proof. intros qn v z H. split; [now apply quantQ_integer | now apply quantQ_floor]. Qed.
+Print Assumptions C06_quantisation.
+
+(** non-vacuity of the three statements above: slots 2,1,2,1, members 3 and 7 with table values 4 and 9 (their exchange changes the
+    objective from 2*4+1*9 to 2*9+1*4), and the monitor accepts the truthful report *)
+Example C06_position_hyps_satisfiable :
+  let t := [0; 0; 0; 4; 0; 0; 0; 9] in
+  let ev := tps_eval (mkTP [t] [] [1] [] [] true [] [] [] []) [[] ++ 2 :: 1 :: [2; 1]] [] [] in
+  length (@nil Z) = length (@nil Z) /\ 2 <> 1 /\ look t 3 <> look t 7 /\ 1 <> 0 /\
+  ev [3; 7] = ([17], [], []) /\ ev [7; 3] = ([22], [], []) /\
+  truthful_b ev [[3; 7]] [ev [3; 7]] = true /\ truthful_b ev [[3; 7]] [ev [7; 3]] = false /\
+  0 < 4 /\ (quantQ 4 (11 # 8) == 5 # 4)%Q.
+Proof. cbn zeta. repeat split; try reflexivity; try lia; cbn; try discriminate; lia. Qed.
 
 (** non-vacuity: a concrete problem (objective = sum of the members, no constraints) meets the hypotheses of the
     theorems above, and the modelled optimisers return the expected answers on it *)
